@@ -25,6 +25,18 @@ Definition zget (l : list Z) (i : Z) : option Z :=
 Definition zset (l : list Z) (i v : Z) : option (list Z) :=
   if (0 <=? i) && (i <? Z.of_nat (length l)) then Some (firstn (Z.to_nat i) l ++ v :: skipn (S (Z.to_nat i)) l) else None.
 
+(* `for x in seq: body` *)
+Fixpoint for_each {R S A : Type} (l : list A) (body : A -> S -> ctl R S) (st : S) : ctl R S :=
+  match l with
+  | [] => Next st
+  | x :: r => match body x st with
+              | Next st' => for_each r body st'
+              | Ret r' => Ret r'
+              | Fail => Fail
+              | OutOfFuel => OutOfFuel
+              end
+  end.
+
 (* the statements after a `for` loop, as a continuation on the loop's final state *)
 Definition for_then {R S S' : Type} (c : ctl R S) (k : S -> ctl R S') : ctl R S' :=
   match c with Next st => k st | Ret r => Ret r | Fail => Fail | OutOfFuel => OutOfFuel end.
